@@ -23,6 +23,63 @@ from ..report import Ledger
 from ..sym import DIFFERENT, EQUAL, Translator, Unsupported, Vocabulary, monotone, same, sp
 
 
+def _exception_path_returns(body, tr: ast.Try, handler: ast.ExceptHandler) -> list[ast.Return]:
+    """Returns reachable on the path where `handler` of the top-level try `tr` ran.  Locals are tracked as
+    None / an expression; `x is None` / `x is not None` tests on tracked locals are decided, other tests fork."""
+    out: list[ast.Return] = []
+
+    def resolve(e, env):
+        seen = 0
+        while isinstance(e, ast.Name) and e.id in env and env[e.id] is not None and seen < 8:
+            e = env[e.id]
+            seen += 1
+        return e
+
+    def decide(test, env):
+        if isinstance(test, ast.Compare) and len(test.ops) == 1 and isinstance(test.ops[0], (ast.Is, ast.IsNot)) and isinstance(test.comparators[0], ast.Constant) \
+                and test.comparators[0].value is None and isinstance(test.left, ast.Name) and test.left.id in env:
+            v = resolve(test.left, env)
+            if isinstance(v, ast.Constant) and v.value is None:
+                return isinstance(test.ops[0], ast.Is)
+            if isinstance(v, (ast.Call, ast.BinOp, ast.List, ast.Tuple, ast.Dict)) or (isinstance(v, ast.Constant) and v.value is not None):
+                return None if isinstance(v, ast.Call) else isinstance(test.ops[0], ast.IsNot)
+        return None
+
+    def go(stmts, env) -> bool:
+        """True when the block falls through"""
+        for k, st in enumerate(stmts):
+            if st is tr:
+                if not go(handler.body, env):
+                    return False
+                continue
+            if isinstance(st, (ast.Assign, ast.AnnAssign)) and st.value is not None:
+                for t in (st.targets if isinstance(st, ast.Assign) else [st.target]):
+                    if isinstance(t, ast.Name):
+                        env[t.id] = st.value
+            elif isinstance(st, ast.Return):
+                r = ast.copy_location(ast.Return(value=resolve(st.value, env) if st.value is not None else None), st)
+                out.append(r)
+                return False
+            elif isinstance(st, ast.Raise):
+                return False
+            elif isinstance(st, ast.If):
+                d = decide(st.test, env)
+                rest = stmts[k + 1:]
+                if d is None:
+                    e1, e2 = dict(env), dict(env)
+                    if go(st.body, e1):
+                        go(rest, e1)
+                    if go(st.orelse, e2):
+                        go(rest, e2)
+                    return False
+                if not go(st.body if d else st.orelse, env):
+                    return False
+        return True
+
+    go(list(body), {})
+    return out
+
+
 def _stmt_index(body, node) -> int:
     """position of the top-level statement that contains `node`"""
     for i, st in enumerate(body):
@@ -126,7 +183,7 @@ def run(prog: Program, L: Ledger) -> None:
     ud0 = afb.methods.get("update_delta")
     if ud0 is None:
         raise AnalysisError("update_delta missing")
-    ud = flat(prog, ud0, afb)
+    ud = flat(prog, ud0, afb, public_methods=True)  # extracted public helpers (an `interpolate_delta(weight)`) are seen through
     ucfg = build_cfg(ud.node)
     dnodes = [n_ for n_ in ucfg.nodes if n_.kind == "stmt" and isinstance(n_.ast, (ast.Assign, ast.AnnAssign)) and any(norm(t) == "self.delta" for t in (n_.ast.targets if isinstance(n_.ast, ast.Assign) else [n_.ast.target]))]
     every = bool(dnodes)
@@ -144,7 +201,12 @@ def run(prog: Program, L: Ledger) -> None:
     if len(calls) != 1:
         raise AnalysisError("update_delta: update function application not found")
     call = calls[0]
-    L.check(norm(uinl.inline(call.func)) == "self.update_functions[self.update_function]" and len(call.args) == 1 and not call.keywords and norm(call.args[0]) == "self.variation_coef", "R3", "update_delta:application", ud0.where,
+    # … applied to the value this call computed from the scheme: `self.variation_coef` after its assignment, or the local
+    # that the attribute is assigned from
+    vc_defs = [st for st in walk_no_nested(ud.node) if isinstance(st, ast.Assign) and norm(st.targets[0]) == "self.variation_coef"]
+    arg_txt = norm(uinl.inline(call.args[0])) if len(call.args) == 1 else ""
+    fresh_arg = len(call.args) == 1 and ((norm(call.args[0]) == "self.variation_coef" and len(vc_defs) == 1 and _stmt_index(ud.body(), vc_defs[0]) <= _stmt_index(ud.body(), call)) or (len(vc_defs) == 1 and arg_txt == norm(uinl.inline(vc_defs[0].value)) and arg_txt.startswith("self.schemes[")))
+    L.check(norm(uinl.inline(call.func)) == "self.update_functions[self.update_function]" and not call.keywords and fresh_arg, "R3", "update_delta:application", ud0.where,
             f"update function applied as `{norm(uinl.inline(call.func))}({', '.join(norm(a_) for a_ in call.args)})`", "delta computed from a stale or different quantity", norm(call))
     vocab2 = Vocabulary({"self.min_delta": ("dmin", {"real": True}), "self.max_delta": ("dmax", {"real": True})})
     t2 = Translator(vocab2)
@@ -171,8 +233,9 @@ def run(prog: Program, L: Ledger) -> None:
         raise AnalysisError(f"update_delta: {wit}")
     # variation coefficient from the scheme table on the live atoms, assigned before the update function reads it
     vca = [st for st in walk_no_nested(ud.node) if isinstance(st, ast.Assign) and norm(st.targets[0]) == "self.variation_coef"]
-    okv = len(vca) == 1 and norm(uinl.inline(vca[0].value.func) if isinstance(vca[0].value, ast.Call) else vca[0].value) == "self.schemes[self.scheme]" \
-        and isinstance(vca[0].value, ast.Call) and [norm(a_) for a_ in vca[0].value.args] == ["self.atoms"] and _stmt_index(ud.body(), vca[0]) <= _stmt_index(ud.body(), call)
+    vval = uinl.inline(vca[0].value) if len(vca) == 1 else None
+    okv = len(vca) == 1 and isinstance(vval, ast.Call) and norm(uinl.inline(vval.func)) == "self.schemes[self.scheme]" \
+        and [norm(a_) for a_ in vval.args] == ["self.atoms"] and not vval.keywords
     L.check(okv, "R3", "update_delta:variation", ud0.where,
             "variation coefficient is not taken from the configured scheme on the current atoms before delta is computed", "", norm(vca[0].value) if vca else "")
 
@@ -182,7 +245,7 @@ def run(prog: Program, L: Ledger) -> None:
         f = prog.lookup_method(afb, v.attr) if isinstance(v, ast.Attribute) else None
         if f is None:
             raise AnalysisError(f"scheme `{norm(k)}` does not resolve to a method")
-        f = flat(prog, f, afb)
+        f = flat(prog, f, afb, public_methods=True)
         tries = [s for s in walk_no_nested(f.node) if isinstance(s, ast.Try)]
         if len(tries) != 1:
             raise AnalysisError(f"{f.qualname}: expected one try/except around the committee lookup")
@@ -193,11 +256,10 @@ def run(prog: Program, L: Ledger) -> None:
         L.check({"KeyError", "AttributeError"} <= caught or "*" in caught or "Exception" in caught, "R4", f"{f.qualname}:handlers", f.where,
                 f"fallback catches {sorted(caught)}: a calculator without committee results (KeyError) or without results (AttributeError) must fall back", "no committee data → exception instead of reference variance", ",".join(sorted(caught)))
         # the value returned on the fallback path: `return e` in the handler, or `v = e` there with `return v` after the try
-        tail_ret = [s_ for s_ in f.body() if isinstance(s_, ast.Return) and isinstance(s_.value, ast.Name)]
         for h in tr.handlers:
-            rets = [s for s in walk_no_nested(h) if isinstance(s, ast.Return)]
-            if not rets and tail_ret:
-                rets = [ast.copy_location(ast.Return(value=s_.value), s_) for s_ in walk_no_nested(h) if isinstance(s_, ast.Assign) and any(isinstance(t_, ast.Name) and t_.id == tail_ret[-1].value.id for t_ in s_.targets)]
+            # every return the function can reach once this handler ran (the handler may return itself, set a local that
+            # is returned after the try, or set a "no data" marker that a later `is None` test turns into the fallback)
+            rets = _exception_path_returns(f.body(), tr, h)
             for r in rets:
                 n += 1
                 val = r.value
